@@ -87,8 +87,11 @@ def f_shadow(case):
     rho = C.dense_state(case['state'])
     prog = case['prog']
     fixed = not any(g['kind'] == 'rand' for g in prog)
+    gates = None
     if case['ckind'] == 'prog':
-        circ, gates = SO.build_circuit(N, prog, 'CliffordCircuit')
+        circ, gates = SO.build_circuit(N, prog, case.get('cls', 'CliffordCircuit'))
+        if fixed and case.get('compile'):
+            circ.compile()
     elif case['ckind'] == 'onsite':
         circ = pc.onsite_rcc(N); fixed = False
     elif case['ckind'] == 'global':
@@ -105,10 +108,11 @@ def f_shadow(case):
     check(B.snapshot(S) == snap, 'taking snapshots changed the base state', 'base-modified')
     check(len(snaps) == case['n'], 'snapshots(%d) yielded %d' % (case['n'], len(snaps)), 'snapshot-count')
     if fixed:
-        Z = pc.zero_state(N)
-        circ.backward(Z)
-        Gb, _ = B.group_of_state(Z)
-        want = _strip(ref.RefGroup(*[x for x in (B.read_state(Z)[0][:N], np.zeros(N, dtype=np.int64))]).canonical())
+        # back-evolved measurement basis from the reference model: the Z_q pulled back through the program (inverse of the forward action)
+        back = C.program_ref(prog, N, gates).inverse()
+        zl = np.zeros((N, N), dtype=np.int64); zl[np.arange(N), np.arange(N)] = 3
+        bl, _bk = back.apply(zl, np.zeros(N, dtype=np.int64))
+        want = _strip(ref.RefGroup(bl, np.zeros(N, dtype=np.int64)).canonical())
     for i, T in enumerate(snaps):
         check(T is not S, 'snapshot is the base state object', 'snapshot-alias')
         l, k, r = B.check_tableau(T, 'snapshot %d' % i)
@@ -127,7 +131,8 @@ def f_shadow(case):
         for j in range(i):
             check(not any(np.shares_memory(a, b) for _, a in B.arrays_of(T) for _, b in B.arrays_of(snaps[j])), 'two snapshots share memory', 'snapshot-alias')
     r0 = case['state']['r']
-    return {'nt': (r0 > 0 or any(x.startswith('-') for x in case['state']['rows'])) and case['n'] >= 1, 'labels': ['N=%d' % N, case['ckind'], 'fixed' if fixed else 'random', 'r=%d' % r0]}
+    return {'nt': (r0 > 0 or any(x.startswith('-') for x in case['state']['rows'])) and case['n'] >= 1, 'labels': ['N=%d' % N, case['ckind'], 'fixed' if fixed else 'random', 'r=%d' % r0] + (
+        [case.get('cls', 'CliffordCircuit') + ('-compiled' if fixed and case.get('compile') else '')] if case['ckind'] == 'prog' else [])}
 
 
 def st_shadow(hiN):
@@ -135,7 +140,8 @@ def st_shadow(hiN):
         rnd = st.integers(1, min(N, 2)).flatmap(lambda n: st.fixed_dictionaries({'kind': st.just('rand'), 'qubits': gen.st_subset(N, n)}))
         prog = st.one_of(gen.st_program(N, 6), st.lists(st.integers(0, 3).flatmap(lambda i: rnd if i == 0 else gen.st_gate(N)), max_size=5))
         return st.fixed_dictionaries({'N': st.just(N), 'state': gen.st_state(N), 'prog': prog, 'ckind': st.sampled_from(['prog', 'prog', 'prog', 'onsite', 'global', 'brickwall']),
-                                      'depth': st.integers(1, 3), 'seed': gen.st_seed(), 'n': st.integers(0, 3)})
+                                      'depth': st.integers(1, 3), 'seed': gen.st_seed(), 'n': st.integers(0, 3),
+                                      'cls': st.sampled_from(['CliffordCircuit', 'Circuit']), 'compile': st.booleans()})
     return st.integers(1, hiN).flatmap(inner)
 
 
